@@ -76,6 +76,7 @@ OBLIGATIONS = [
     kani("c13_aabb_mono", ["C13"], "C13.aabb.mono", "AABB::intersects / AABB::join", tier="thorough", timeout=900),
     kani("c13_build_empty", ["C13", "C14", "C12"], "C13.build.empty", "BVH::build / BVH::intersects", bounded="0 obstacles, leaf size in {1,2,30}"),
     kani("c13_build_single", ["C13", "C12"], "C13.build.equiv", "BVH::build / BVH::intersects", bounded="1 obstacle with symbolic box and hit flag, leaf size in {1,2,30}", timeout=300),
+    verus("bvh_builder", ["C13", "C14"], "C13.builder", "BVH::generate_node_list"),
     # ---- C17 / C03 (convert) -------------------------------------------------------------------------
     kani("c17_day_of_year", ["C17"], "C17.doy", "convert::from_ctehexml::day_of_year"),
     kani("c03_azimuth_convention", ["C03"], "C03.azimuth", "convert::orientation_bdl_to_52016"),
@@ -95,6 +96,7 @@ OBLIGATIONS = [
     native("n_c11_props_model", ["C11", "C08", "C09"], "C11.props", "EnergyProps::from(&Model) / Model::global_ventilation_rate / Space::area / Space::height_net / Wall::area_net", RN + "n_c11_props_model"),
     native("n_c11_scaling", ["C11"], "C11.scaling", "EnergyProps::from(&Model)", RN + "n_c11_scaling"),
     native("n_c15_check", ["C15"], "C15.check", "check(&Model) / EnergyIndicators::compute", RN + "n_c15_check"),
+    native("n_c16_purge", ["C16"], "C16.purge", "purge_unused(&mut Model)", RN + "n_c16_purge"),
     native("n_c09_n50", ["C09"], "C09.n50", "N50Data::from(&EnergyProps)", EN + "n_c09_n50"),
     native("n_c10_qsoljul", ["C10"], "C10.qsoljul", "QSolJulData::from(&EnergyProps, &HashMap<Orientation,f32>)", EN + "n_c10_qsoljul"),
     native("n_c10_july_table", ["C10", "C20"], "C10.table", "climatedata::total_radiation_in_july_by_orientation", EN + "n_c10_july_table"),
@@ -114,4 +116,5 @@ PROPERTIES = {
     "C08": {"level": "proof"},
     "C10": {"level": "proof"},
     "C15": {"level": "exploration"},
+    "C16": {"level": "exploration"},
 }
